@@ -3,7 +3,14 @@
 (what one stage hands to the next: which marks, which lines, which token types, the order of two stages); the extracted
 mutant is run through the driver unit `e2e` on the case sets of tools/e2e_diff.py.  A mutant that produces no DIFF
 ("SURVIVED") is observationally equivalent or shows a gap in the generators.
-Known equivalent: conddir_before_generics_types (the consolidator's `is_allowed_token` does not mention chevrons).
+Result when written: 23 mutants, 18 killed, 5 survive:
+  void_without_any_marked        equivalent: with nothing marked only a line without tokens (already voided) has "all tokens marked"
+  conddir_before_generics_types  equivalent: the consolidator's is_allowed_token does not mention chevrons
+  order_generics_after_conddir   equivalent: the two stages read and write disjoint things
+  conddir_first_match_search     equivalent on parser output (at most one directive line per first token: unique_first_tokens)
+  wrap_iteration_max             2 000 instead of 20 000: no generated line needs more than 185 iterations (587 k searches seen);
+                                 the limit is only reached through the nesting blow-up (F34), where both limits are exceeded
+(order_asm_before_toggler is killed only because the stage comparison `pre` sits after the asm stage: the marks are a set.)
 usage: python3 tools/e2e_mutants.py [name,name,...]      (needs vpcheck --setup; works in .cache/e2e_mutants)"""
 import os, subprocess, sys, time, re, shutil
 ROOT = os.path.dirname(os.path.dirname(os.path.abspath(__file__)))
